@@ -2218,12 +2218,14 @@ func (p *Parser) parseCastExpr() *ast.CastExpr {
 
 func (p *Parser) parseExistsSubQuery() *ast.ExistsSubQuery {
 	exists := p.expect("EXISTS").Pos
+	hint := p.tryParseHint()
 	p.expect("(")
 	query := p.parseQueryExpr()
 	rparen := p.expect(")").Pos
 	return &ast.ExistsSubQuery{
 		Exists: exists,
 		Rparen: rparen,
+		Hint:   hint,
 		Query:  query,
 	}
 }
